@@ -215,7 +215,7 @@ FOREIGN_COL = {'P': 'title', 'T': 'name', 'D': 'age', 'O': 'boss'}
 COL_TARGETS_QUICK = ['fresh', 'sanitise', 'collide', 'foreign', 'keyword']
 COL_TARGETS_MORE = ['digit', 'accent', 'short', 'long', 'id', 'tablename', 'rec', 'loopvar',
                     'suffix', 'upper', 'same', 'manualsort', 'blank']
-TAB_TARGETS_QUICK = ['fresh', 'sanitise', 'collide', 'foreign', 'keyword']
+TAB_TARGETS_QUICK = ['fresh', 'sanitise', 'collide', 'foreign', 'keyword', 'function']
 TAB_TARGETS_MORE = ['digit', 'lower', 'short', 'long', 'keyword2', 'owncol', 'suffix']
 
 COL_PATHS_QUICK = ['RenameColumn', 'colId', 'label']
@@ -265,6 +265,7 @@ def tab_target(st, t, label):
       'foreign': ('age', 'Age'),
       'keyword': ('None', 'TNone'),
       'keyword2': ('class', 'Class'),
+      'function': ('SUM', 'SUM'),     # the id of a formula function that formulas here call
       'digit': ('2nd', 'T2nd'),
       'lower': (cur.lower(), cur[0].upper() + cur[1:].lower()),
       'short': ('Q', 'Q'),
@@ -422,8 +423,27 @@ def meta_rows(doc):
 # oracles
 # ---------------------------------------------------------------------------------------------
 
-def check_meta(doc, st, before_rows):
-  """Compares _grist_Tables / _grist_Tables_column with the model.  Returns [(key, msg, colkey)]."""
+def mismatch_kind(template, st, old, before_text, expected, actual):
+  """missed: the text is the template with some mentions still carrying the id from before this
+  rename; spurious: nothing should have changed; wrong: anything else (garbled text)."""
+  if old is not None:
+    old_tables, old_cols = old
+    parts, pos = [], 0
+    for m in MARK.finditer(template):
+      parts.append(re.escape(template[pos:m.start()]))
+      t, c = m.group(1), m.group(2)
+      ids = {st.tables[t], old_tables[t]} if c is None else {st.cols[(t, c)], old_cols[(t, c)]}
+      parts.append('(?:%s)' % '|'.join(sorted(re.escape(i) for i in ids)))
+      pos = m.end()
+    parts.append(re.escape(template[pos:]))
+    if re.fullmatch(''.join(parts), actual, re.S):
+      return 'missed'
+  return 'spurious' if expected == before_text else 'wrong'
+
+
+def check_meta(doc, st, before_rows, old=None):
+  """Compares _grist_Tables / _grist_Tables_column with the model.  Returns [(key, msg, colkey)].
+  old = (table ids, column ids) before the rename, for classifying mismatches."""
   b = _BASE
   out = []
   tabs = doc.fetch('_grist_Tables')
@@ -451,11 +471,11 @@ def check_meta(doc, st, before_rows):
           TAB[k[0]], k[1], row['colId'], st.cols[k]), k))
     exp = st.render(st.templates[k])
     if row['formula'] != exp and k not in st.poisoned:
-      old = before_rows[r]['formula'] if before_rows else None
-      kind = ('missed' if row['formula'] == old else 'spurious' if exp == old else 'wrong')
+      was = before_rows[r]['formula'] if before_rows else None
+      kind = mismatch_kind(st.templates[k], st, old, was, exp, row['formula'])
       out.append(('C16/text/%s/%s' % (kind, fam),
                   "formula of %s.%s: before %r, expected %r, got %r" % (
-                      TAB[k[0]], k[1], old, exp, row['formula']), k))
+                      TAB[k[0]], k[1], was, exp, row['formula']), k))
     if st.types[k] is not None and row['type'] != st.render(st.types[k]):
       out.append(('C16/ref-type', "type of %s.%s: expected %r, got %r" % (
           TAB[k[0]], k[1], st.render(st.types[k]), row['type']), k))
@@ -612,7 +632,7 @@ def do_step(doc, st, step, fails, pre_bundle=None, twin=None):
     if ret != renames[0][1]:
       fails.append(('C16/ret-value/' + path, "%s returned %r, expected %r" % (
           what, ret, renames[0][1])))
-  bad = check_meta(doc, st, before_rows)
+  bad = check_meta(doc, st, before_rows, old=(old_tables, old_cols))
   for key, msg, k in bad:
     fails.append((key, "%s: %s" % (what, msg)))
     if k is not None:
@@ -698,6 +718,10 @@ def run_case(case):
     n = len(fails)
     changed = do_step(doc, st, step, fails, pre_bundle=pre if i == 0 else None,
                       twin=twin if i == 0 else None)
+    if step[2] is None and step[3] == 'function':
+      # one root cause whatever formula shows it: the table id hides the function
+      fails[n:] = [('C16/table-id-shadows-function', m) if k.startswith(
+          ('C16/value-changed/', 'C16/fresh-recompute-differs/')) else (k, m) for k, m in fails[n:]]
     nontrivial = nontrivial or changed
     if any(not k.startswith(('C16/text/', 'C16/value-changed/', 'C16/fresh-recompute-differs/'))
            for k, _ in fails[n:]):
